@@ -12,13 +12,38 @@ std::string ruleName(const IssuePtr &issue);
 
 static const char *NS = "http://www.cellml.org/cellml/2.0#";
 
-std::string fileText(const J &f, const std::string &modelName)
+std::string fileText(const J &f, const std::string &modelName, bool grouped)
 {
     std::string s = "<?xml version=\"1.0\" encoding=\"UTF-8\"?>\n<model xmlns=\"" + std::string(NS) + "\" xmlns:xlink=\"http://www.w3.org/1999/xlink\" name=\"" + modelName + "\">\n";
+    if (grouped) { // one import element per imported file: the entities it lists share one ImportSource object
+        std::vector<std::string> order;
+        std::map<std::string, std::string> body;
+        auto add = [&](const std::string &file, const std::string &item) {
+            if (body.find(file) == body.end()) {
+                order.push_back(file);
+            }
+            body[file] += item;
+        };
+        for (auto &c : f["comps"].a) {
+            if (c["kind"].str() == "import") {
+                add(c["file"].str(), "<component name=\"" + c["name"].str() + "\" component_ref=\"" + c["ref"].str() + "\"/>");
+            }
+        }
+        for (auto &u : f["units"].a) {
+            if (u["kind"].str() == "import") {
+                add(u["file"].str(), "<units name=\"" + u["name"].str() + "\" units_ref=\"" + u["ref"].str() + "\"/>");
+            }
+        }
+        for (auto &file : order) {
+            s += "  <import xlink:href=\"" + file + ".cellml\">" + body[file] + "</import>\n";
+        }
+    }
     for (auto &u : f["units"].a) {
         std::string k = u["kind"].str();
         if (k == "import") {
-            s += "  <import xlink:href=\"" + u["file"].str() + ".cellml\"><units name=\"" + u["name"].str() + "\" units_ref=\"" + u["ref"].str() + "\"/></import>\n";
+            if (!grouped) {
+                s += "  <import xlink:href=\"" + u["file"].str() + ".cellml\"><units name=\"" + u["name"].str() + "\" units_ref=\"" + u["ref"].str() + "\"/></import>\n";
+            }
         } else if (k == "ref") {
             s += "  <units name=\"" + u["name"].str() + "\"><unit units=\"" + u["ref"].str() + "\" prefix=\"milli\"/></units>\n";
         } else {
@@ -28,7 +53,9 @@ std::string fileText(const J &f, const std::string &modelName)
     std::string enc;
     for (auto &c : f["comps"].a) {
         if (c["kind"].str() == "import") {
-            s += "  <import xlink:href=\"" + c["file"].str() + ".cellml\"><component name=\"" + c["name"].str() + "\" component_ref=\"" + c["ref"].str() + "\"/></import>\n";
+            if (!grouped) {
+                s += "  <import xlink:href=\"" + c["file"].str() + ".cellml\"><component name=\"" + c["name"].str() + "\" component_ref=\"" + c["ref"].str() + "\"/></import>\n";
+            }
         } else {
             std::string un = c["units"].str("none") == "none" ? "dimensionless" : c["units"].str();
             std::string second;
@@ -52,7 +79,7 @@ std::string fileText(const J &f, const std::string &modelName)
     return s;
 }
 
-void writeWorld(const std::string &dir, const J &files, const J &intact)
+void writeWorld(const std::string &dir, const J &files, const J &intact, bool grouped)
 {
     for (auto &kv : files.o) {
         if (kv.first == "root") {
@@ -66,13 +93,13 @@ void writeWorld(const std::string &dir, const J &files, const J &intact)
         }
         std::string text;
         if (st == "ok") {
-            text = fileText(kv.second, kv.first);
+            text = fileText(kv.second, kv.first, grouped);
         } else if (st == "garbage0") {
             text = "";
         } else if (st == "garbage1") {
             text = "<";
         } else if (st == "garbage2") { // the intact file cut in the middle
-            std::string whole = fileText(intact[kv.first], kv.first);
+            std::string whole = fileText(intact[kv.first], kv.first, grouped);
             text = whole.substr(0, whole.size() / 2);
         } else if (st == "garbage3") {
             text = "just some text, no markup";
@@ -117,10 +144,11 @@ static void importer(const J &sc, Emitter &out)
     const J &files = sc["files"];
     const J &intact = sc["repaired"];
     bool strict = sc["strict"].boolean(true);
-    writeWorld(dir, files, intact);
+    bool grouped = sc["grouped"].boolean(false);
+    writeWorld(dir, files, intact, grouped);
     J ev = J::obj();
-    ev.set("e", "resolve").set("world", sc["world"]).set("fault", sc["fault"]).set("strict", J(strict)).set("files", files).set("repaired", intact);
-    auto root = Parser::create(true)->parseModel(fileText(files["root"], "root"));
+    ev.set("e", "resolve").set("world", sc["world"]).set("fault", sc["fault"]).set("strict", J(strict)).set("files", files).set("repaired", intact).set("grouped", J(grouped));
+    auto root = Parser::create(true)->parseModel(fileText(files["root"], "root", grouped));
     std::string rootBefore = contentOf(root).dump();
     auto imp = Importer::create(strict);
     bool r1 = imp->resolveImports(root, dir + "/");
@@ -132,9 +160,15 @@ static void importer(const J &sc, Emitter &out)
         ev.set("flatHasImports", J(flat->hasImports()));
     }
     // repair the fault; the importer must still be usable
-    writeWorld(dir, intact, intact);
+    writeWorld(dir, intact, intact, grouped);
+    // retry with the same importer on the same, partly linked model: whatever the answer (the library may hold the faulty
+    // file), "true" must mean resolved
+    bool r3 = imp->resolveImports(root, dir + "/");
+    ev.set("r3", J(r3)).set("unresolved3", J(root->hasUnresolvedImports())).set("issues3", issueList(imp)).set("log3", loggerObs(imp));
+    auto flat3 = imp->flattenModel(root);
+    ev.set("flatNull3", J(flat3 == nullptr));
     imp->removeAllModels();
-    auto root2 = Parser::create(true)->parseModel(fileText(intact["root"], "root"));
+    auto root2 = Parser::create(true)->parseModel(fileText(intact["root"], "root", grouped));
     bool r2 = imp->resolveImports(root2, dir + "/");
     ev.set("r2", J(r2)).set("unresolved2", J(root2->hasUnresolvedImports())).set("issues2", issueList(imp)).set("log2", loggerObs(imp));
     auto flat2 = imp->flattenModel(root2);
